@@ -32,6 +32,16 @@ CONTEXTS = [
     ("walrus", "{pre}if (w := {call}):\n    pass\n", 0),
     ("starred", "{pre}print(*{call})\n", 0),
     ("return_ann", "{pre}def g() -> {call}:\n    pass\n", 0),
+    # list-valued AST fields whose FIRST element is None or a non-call and the call comes later (seeded change C01-m20 skipped a child list after looking
+    # at its first element only: arguments.kw_defaults = [None, call], Dict.keys = [None, call])
+    ("kwdefault_after_required", "{pre}def g(*, k, a={call}):\n    pass\n", 0),
+    ("lambda_kwdefault_after_required", "{pre}h = lambda *, k, a={call}: 0\n", 0),
+    ("dictkey_after_spread", "{pre}d = {{**q, {call}: 1}}\n", 0),
+    ("dictval_after_spread", "{pre}d = {{**q, 'k': {call}}}\n", 0),
+    ("third_default", "{pre}def g(a, b=1, c={call}):\n    pass\n", 0),
+    ("second_base", "{pre}class K(B, {call}):\n    pass\n", 0),
+    ("second_with_item", "{pre}with q as h, {call} as j:\n    pass\n", 0),
+    ("second_target_value", "{pre}a, b = 1, {call}\n", 0),
 ]
 
 ARG_LAYOUTS = [("()", 0), ("(a)", 0), ("(a, b=1)", 0), ("(\n    a,\n    b,\n)", 0), ("(*a, **k)", 0)]
